@@ -348,7 +348,7 @@ func fidelityGate(b *Built, env []string) string {
 	}
 	runTests := func(dir string, extra []string) res {
 		e := append(append([]string{}, env...), extra...)
-		out, _ := run(dir, e, b.GoBin, "test", "-json", "-vet=off", "-count=1", "./cmd/...", "./pkg/...")
+		out, _ := run(dir, e, b.GoBin, "test", "-json", "-vet=off", "-count=1", "-timeout", "300s", "./cmd/...", "./pkg/...")
 		m := map[string]string{}
 		dec := json.NewDecoder(strings.NewReader(out))
 		for {
